@@ -499,6 +499,20 @@ def values_equal(a, b):
     return a == b
 
 
+def canon_line(ln):
+    """one canonical spelling per value (doubles are printed %.17g by the driver, repr() by Python)"""
+    parts = ln.split(" ")
+    out = []
+    for x in parts:
+        if x.startswith("d:"):
+            try:
+                x = "d:%r" % float(x[2:])
+            except ValueError:
+                pass
+        out.append(x)
+    return " ".join(out)
+
+
 def handler_channel(lines, target_set):
     """sub-sequence of a trace on handler channels: calls, logs and writes to properties that are
     not binding targets (translate calls come from bindings in these worlds and are dropped)"""
@@ -508,7 +522,7 @@ def handler_channel(lines, target_set):
         if parts[0] == "set":
             if (parts[1], parts[2]) in target_set:
                 continue
-            out.append(ln)
+            out.append(canon_line(ln))
         elif parts[0] in ("call", "log"):
-            out.append(ln)
+            out.append(canon_line(ln))
     return out
